@@ -56,7 +56,7 @@ type goccExpect struct {
 
 func checkC04(c *Ctx) {
 	c.Level = "model_checking"
-	c.Set("rule", "the canonical LR(1) automaton of every grammar is computed by TLC from LR1.tla (conflicting states, accept conflicts); the exit/announcement policy is the outcome table of the TLC-checked Pipeline.tla; the real gocc is run with and without -a and must announce conflicts iff the canonical automaton has one, with the number of conflicting states, and exit as the policy says. distinct_nontrivial counts distinct grammars that have at least one conflict")
+	c.Set("rule", "the canonical LR(1) automaton of every grammar is computed by TLC from LR1.tla (conflicting states, accept conflicts); the exit/announcement policy is the outcome table of the TLC-checked Pipeline.tla; the real gocc is run with and without -a and must announce conflicts iff the canonical automaton has one, with the number of conflicting states, and exit as the policy says; grammars with error alternatives are included (a conflict on the error symbol is a conflict); a family with a known number of conflicting states (confirmed by TLC for its small members) is run with 255, 256, 257 (thorough: 512, 768) conflicts. distinct_nontrivial counts distinct grammars that have at least one conflict")
 	c.Assume("string literal contents `empty`/`error` are not generated (finding F13)")
 	tab := c.pipelineTable()
 	rng := rand.New(rand.NewSource(c.Seed))
@@ -69,11 +69,39 @@ func checkC04(c *Ctx) {
 		}
 		gs = append(gs, genSynGrammar(rng, o))
 	}
+	// every fourth grammar with error alternatives: a conflict on the error symbol is a conflict
+	for i := 0; i < n/4; i++ {
+		o := c04Opts
+		o.ErrorAlts = true
+		gs = append(gs, genSynGrammar(rng, o))
+	}
+	gs = append(gs, curatedErrSyn()...)
+	// the family "k_i A_i | k_i B_i, A_i : x, B_i : x" has exactly one conflicting state per pair:
+	// TLC confirms that for 1, 2, 3 pairs; the large members (numbers of conflicts around
+	// multiples of 256, the modulus of an exit status) are run on gocc with that count
+	small := len(gs)
+	for k := 1; k <= 3; k++ {
+		gs = append(gs, pairFamily(k))
+	}
 	abss := make([]synAbs, len(gs))
 	for i, g := range gs {
 		abss[i] = g.abstract()
 	}
 	ideal := c.lrIdealEval(abss)
+	for k := 1; k <= 3; k++ {
+		if s := ideal[small+k-1]; s.NConfStates != k || s.AccConf {
+			infra("the pair family with %d pairs has %d conflicting states by LR1.tla: the closed form used for its large members is wrong", k, s.NConfStates)
+		}
+	}
+	bigs := []int{255, 256, 257}
+	if !c.Quick() {
+		bigs = append(bigs, 512, 768)
+	}
+	for _, k := range bigs {
+		gs = append(gs, pairFamily(k))
+		ideal = append(ideal, idealSumm{NStates: -1, NConfStates: k, NConf: k})
+	}
+	c.Set("pair_family_sizes", bigs)
 	for _, fl := range [][]string{nil, {"a"}} {
 		m := c.NewModule("c04" + fmt.Sprint(len(fl)))
 		runs := make([]GoccRun, len(gs))
@@ -150,4 +178,23 @@ func replayGoccConflicts(c *Ctx, r *Replay) (bool, string) {
 		return true, msg
 	}
 	return false, "exit status and conflict announcement as specified"
+}
+
+// pairFamily: S : k_i A_i | k_i B_i (i < n), A_i : x, B_i : x: after k_i x both A_i and B_i can
+// be reduced at the end of the input; n conflicting states.
+func pairFamily(n int) *SynGrammar {
+	g := &SynGrammar{NTs: []string{"S"}, Terms: []string{"x"}, IsLit: []bool{true}}
+	for i := 0; i < n; i++ {
+		g.NTs = append(g.NTs, fmt.Sprintf("A%d", i), fmt.Sprintf("B%d", i))
+		g.Terms = append(g.Terms, fmt.Sprintf("k%d", i))
+		g.IsLit = append(g.IsLit, true)
+	}
+	for i := 0; i < n; i++ {
+		g.Prods = append(g.Prods, P(0, T(1+i), N(1+2*i)), P(0, T(1+i), N(2+2*i)))
+	}
+	for i := 0; i < n; i++ {
+		g.Prods = append(g.Prods, P(1+2*i, T(0)), P(2+2*i, T(0)))
+	}
+	g.NoLexDefs = false
+	return g
 }
